@@ -29,6 +29,8 @@ pub fn inputs() -> Vec<(&'static str, Vec<Kv>)> {
             vec![(vec![], 3), (b"abc".to_vec(), 5), (b"abd".to_vec(), 7), (b"b\xff".to_vec(), 9), (b"c".to_vec(), u64::MAX)],
         ),
         ("fanout-40-with-index", fan40),
+        // a wide node that is written DURING a later insert (not at finish), followed by more keys
+        ("wide-node-below-a-prefix-then-more-keys", (0..40u8).map(|i| (vec![b'p', 0x30 + i * 3], 5 + i as u64 * 300)).chain([(b"q".to_vec(), 1), (b"qa".to_vec(), 70_000), (b"r".to_vec(), 2)]).collect()),
         // a final root with 256 transitions: count byte "1 means 256", index table, final output
         ("fanout-256-final-root", std::iter::once((vec![], 9u64)).chain((0..=255u8).map(|b| (vec![b], 1 + (b as u64) * 3))).collect()),
         // the same with 8-byte outputs: the largest single output run of a node (257 x 8 bytes)
